@@ -142,9 +142,31 @@ type XZCfg struct {
 	Check      byte
 	NoCheck    bool
 	Matcher    int
+	// Pre (configuration history): a WriterConfig value is first filled with Pre and verified
+	// (Verify fills in defaults in place), then every field is overwritten with this
+	// configuration's values and the writer is created from that same variable
+	Pre *XZCfg `json:",omitempty"`
+}
+
+// build returns the xz.WriterConfig the way the case's configuration history produces it.
+func (c XZCfg) build() xz.WriterConfig {
+	if c.Pre == nil {
+		return c.cfg()
+	}
+	w := c.Pre.cfg()
+	_ = w.Verify()
+	f := c.cfg()
+	w.Properties, w.DictCap, w.BufSize, w.BlockSize = f.Properties, f.DictCap, f.BufSize, f.BlockSize
+	w.CheckSum, w.NoCheckSum, w.Matcher = f.CheckSum, f.NoCheckSum, f.Matcher
+	return w
 }
 
 func (c XZCfg) String() string {
+	if c.Pre != nil {
+		q := c
+		q.Pre = nil
+		return "verified " + c.Pre.String() + " then set to " + q.String()
+	}
 	m := "HT4"
 	if c.Matcher == 1 {
 		m = "BT"
